@@ -23,6 +23,13 @@ CHECKS.update({
  "C15": ("keepermc", "explicit-state DFS over lock/unlock/time histories against a reference release-time model",
          "Every unlock history up to the depth bound (incl. bursts over the delivery cap and equal timestamps) is executed and compared with reference release times, maturity order, FIFO hand-over and id-multiset conservation.", KB_NOTE, "DESIGN.md section 4 C15"),
 })
+CHECKS.update({
+ "C01": ("inputmc", "exhaustive bounded enumeration of (group size, bitmap, signer subset, action kind, signing-context perturbation) through the real message handlers against a reference quorum predicate",
+         "For every group size up to the bound, every subset of a position alphabet (incl. positions beyond the voter list and in several encodings) x every subset of members that really signed is delivered to the real MsgNewBlockHashes handler of a real App; other voted kinds by class representatives; all single-field context perturbations; Threshold() on its whole domain.",
+         "BLS unforgeability trusted; handlers are invoked through the app's MsgServiceRouter on throw-away branches (transaction-level rollback is the SDK's); process/replace-withdrawal quorum paths are covered in C05.", "DESIGN.md section 4 C01"),
+ "C16": ("keepermc", "explicit-state DFS over the real relayer keeper (requests, NewVoter/AcceptProposer/vote handlers, EndBlocker) with group invariants and reference election/registration predicates",
+         "Every relayer history up to the depth bound for group sizes 1..3 is executed on the real keeper and message handlers; invariants hold in every reached state, NewVoter verdicts agree with a reference (8 forged/replayed variants), elections happen exactly when the reference predicate says.", KB_NOTE, "DESIGN.md section 4 C16"),
+})
 PENDING = {}
 
 def main():
